@@ -43,6 +43,8 @@ def iter_view(interp, v, node=None):
         return View(z3.Length(z), lambda i: VInt(z3.StrToCode(z3.SubString(z, i, 1))))
     if isinstance(v, VObj) and "__view__" in v.fields:
         return v.fields["__view__"]
+    if isinstance(v, VObj) and "__list__" in v.fields:
+        return iter_view(interp, v.fields["__list__"], node)
     raise Unsupported(f"iteration over {v!r} (line {getattr(node, 'lineno', '?')})")
 
 
